@@ -53,6 +53,12 @@ def legit_exit_flip(evals_a, evals_b, precision, complement=False):
     n = min(len(ya), len(yb))
     if n < 2 or len(ya) == len(yb):
         return True
+    # an iteration that is still expanding shortly before it stops (chaotic transient: the step sizes are not decreasing) has
+    # sensitive dependence on the last bits of its input; the length of such a transient is not comparable between twins
+    for ys in (ya, yb):
+        ds = [abs(ys[i + 1] - ys[i]) for i in range(max(0, len(ys) - 9), len(ys) - 1)]
+        if any(ds[i + 1] > ds[i] for i in range(len(ds) - 1)):
+            return True
     da = abs(ya[n - 1] - ya[n - 2])
     db = abs(yb[n - 1] - yb[n - 2])
     tie = 1e-6 * precision
